@@ -460,6 +460,11 @@ class EvalMixin:
         if isinstance(v, ModuleRef):
             r = self.repo.resolve_global(v.module, name)
             if r is None:
+                if v.module.short == "" and name == "biocantor":
+                    return v  # ``import inscripta.biocantor`` binds the top package; .biocantor is the root module
+                sub = (v.module.short + "." + name) if v.module.short else name
+                if sub in self.repo.modules:
+                    return ModuleRef(self.repo.module(sub))
                 raise PyExc("AttributeError", name)
             return self.global_value(r, v.module)
         if isinstance(v, ExternalRef):
